@@ -626,12 +626,13 @@ func (r *Resolver) ResolveGraphQLDeferResponse(ctx *Context, response *GraphQLDe
 				// zero writes hasNext:false.
 				outstanding := int64(len(liveTop))
 				dc := &deferContext{
-					response:   response,
-					info:       response.Response.Info,
-					db:         db,
-					resolvable: resolvable,
-					writer:     writer,
-					arena:      resolveArena.Arena,
+					response:      response,
+					info:          response.Response.Info,
+					db:            db,
+					resolvable:    resolvable,
+					authorization: authorization,
+					writer:        writer,
+					arena:         resolveArena.Arena,
 				}
 				if err := r.resolveDeferTree(dc, ctx, liveTree, &outstanding); err != nil {
 					return nil, err
@@ -651,7 +652,10 @@ type deferContext struct {
 	info       *GraphQLResponseInfo
 	db         *DataBuffer
 	resolvable *Resolvable
-	writer     DeferResponseWriter
+	// authorization holds the seeded pre-fetch decisions of the request; every defer group's
+	// loader consults it so that deferred fetches obey the same skip rule as the initial ones.
+	authorization *FieldAuthorization
+	writer        DeferResponseWriter
 	// arena backs every defer group's loader. It is shared across groups; every
 	// allocation from it is serialised by db's lock (see resolveDeferSingle).
 	arena arena.Arena
@@ -675,7 +679,7 @@ func (r *Resolver) resolveDeferSingle(dc *deferContext, ctx *Context, group *Def
 	// the arena only in its prepare and merge phases, both of which hold
 	// dc.db.Lock(), and the off-lock network phase allocates nothing from it. The
 	// lock therefore serialises every arena allocation across all groups.
-	groupLoader := NewLoader(r.options, r.allowedErrorExtensionFields, r.allowedErrorFields, r.subgraphRequestSingleFlight, dc.arena, dc.db, nil)
+	groupLoader := NewLoader(r.options, r.allowedErrorExtensionFields, r.allowedErrorFields, r.subgraphRequestSingleFlight, dc.arena, dc.db, dc.authorization)
 	groupLoader.Init(ctx, dc.info) // fresh taintedObjs; errors=nil
 
 	if fetchErr := groupLoader.ResolveFetchNode(group.Fetches); fetchErr != nil {
